@@ -32,7 +32,7 @@ from prompt_toolkit.validation import ValidationError, Validator
 
 ID = "C15"
 DRIVER = "drv_c15"
-PROPS = ["Ptk.Props.C15", "Ptk.Props.C15Inv"]
+PROPS = ["Ptk.Props.C15", "Ptk.Props.C15Inv", "Ptk.Props.C15Common"]
 LEVEL_TEXT = ("Lean 4 invariants over a labelled transition system of Buffer's completer / validator / "
               "auto-suggest coroutines (cut at their awaits) interleaved with user edits: every reachable "
               "state, after any finite schedule, has text = original + selected completion, completions "
@@ -52,8 +52,8 @@ RULE = ("exhaustive: for each configuration (feature flags x scripted completer 
 EXHAUSTIVE = True
 EXHAUSTIVE_SCOPE = {
     "quick": "all schedules to depth 5-7 (per configuration) over insert/delete/cursor/next/previous/cancel/"
-             "start-completion/tab/validate + task start + wake-up of each coroutine kind; 14 configurations",
-    "thorough": "same alphabet, depth 7-9 per configuration; 14 configurations",
+             "start-completion/tab/validate/history-lines completion + task start + wake-up + cancellation of each coroutine kind; 21 configurations",
+    "thorough": "same alphabet, depth 7-9 per configuration; 21 configurations",
 }
 TRUSTED = ["harness/c15.py gates every await of the scripted completer/validator/suggester and compares "
            "(exception, text, cursor, complete_state, validation_state/error, suggestion, running flags, "
@@ -104,14 +104,26 @@ class Gate:
 
     async def wait(self, info):
         ev = asyncio.Event()
-        self.waiters.append((ev, info))
-        await ev.wait()
+        entry = (ev, info, asyncio.current_task())
+        self.waiters.append(entry)
+        try:
+            await ev.wait()
+        finally:
+            # a cancelled waiter leaves the gate
+            if entry in self.waiters:
+                self.waiters.remove(entry)
 
     def release(self) -> bool:
         if not self.waiters:
             return False
-        ev, _ = self.waiters.pop(0)
+        ev, _, _ = self.waiters.pop(0)
         ev.set()
+        return True
+
+    def kill(self) -> bool:
+        if not self.waiters:
+            return False
+        self.waiters[0][2].cancel()
         return True
 
 
@@ -242,6 +254,7 @@ class Sim:
         self.active = {"c": 0, "v": 0, "s": 0}
         self.max_active = {"c": 0, "v": 0, "s": 0}
         self.comp_log, self.val_log, self.sug_log = [], [], []
+        self.hist_used = False
         self.pending = []   # (kind, coroutine or None)
         self.tasks = []
         self.task_err = None
@@ -332,6 +345,17 @@ class Sim:
                 b.validate()
             elif k == "reset":
                 b.reset(Document(op[1], min(op[2], len(op[1]))))
+            elif k == "hist":
+                self.hist_used = True
+                b.start_history_lines_completion()
+            elif k == "kill":
+                if self.gates[op[1]].kill():
+                    self.quiesce()
+            elif k == "killp":
+                if op[1] < len(self.pending):
+                    _, coro = self.pending.pop(op[1])
+                    if coro is not None:
+                        coro.close()
             elif k == "start":
                 if not self.natural and op[1] < len(self.pending):
                     _, coro = self.pending.pop(op[1])
@@ -386,11 +410,11 @@ class Sim:
                       for f in (b._async_completer, b._async_validator, b._async_suggester))
         pend = ",".join(k for k, _ in self.pending) or "-"
         w = []
-        for _, (t, c, i) in self.gates["c"].waiters:
+        for _, (t, c, i), _ in self.gates["c"].waiters:
             w.append("c:%s:%d:%d" % (enc_str(t), c, i))
-        for _, (t, c) in self.gates["v"].waiters:
+        for _, (t, c), _ in self.gates["v"].waiters:
             w.append("v:%s:%d" % (enc_str(t), c))
-        for _, (t, c) in self.gates["s"].waiters:
+        for _, (t, c), _ in self.gates["s"].waiters:
             w.append("s:%s:%d" % (enc_str(t), c))
         return "%s %s %d %s %s %s %s %s %s %s" % (status, enc_str(b.text), b.cursor_position, css, vs,
                                                   verr, sg, run, pend, ",".join(w) or "-")
@@ -431,11 +455,11 @@ def parse_op(s: str):
     k = t[0]
     if k in ("ins", "text"):
         return [k, core.dec_str(t[1])]
-    if k in ("delb", "del", "cur", "startc", "start"):
+    if k in ("delb", "del", "cur", "startc", "start", "killp"):
         return [k, int(t[1])]
     if k in ("next", "prev"):
         return [k, int(t[1]), int(t[2])]
-    if k in ("rel", "nrel"):
+    if k in ("rel", "nrel", "kill"):
         return [k, t[1]]
     if k == "apply":
         return [k, core.dec_str(t[1]), int(t[2])]
@@ -473,6 +497,18 @@ def expected_apply(otext, ocur, ctext, cstart):
     return nb + ctext + after, len(nb) + len(ctext)
 
 
+def hist_expected(text, cur):
+    """what start_history_lines_completion must offer for Document(text, cur) with an empty history:
+    the distinct stripped non-empty lines that start with the (left-stripped) current line"""
+    cl = text[:cur].rpartition("\n")[2].lstrip()
+    out = []
+    for line in text.split("\n"):
+        line = line.strip()
+        if line and line.startswith(cl) and (line, -len(cl)) not in out:
+            out.append((line, -len(cl)))
+    return out[::-1]
+
+
 def check_state(sim, v, where):
     """the state part of C15, on the real objects"""
     b = sim.buf
@@ -507,6 +543,8 @@ def check_state(sim, v, where):
                     if (cp and od.text == dt[:dc] + cp + dt[dc:] and od.cursor_position == dc + len(cp)
                             and comps == [(t[len(cp) - s:], 0) for t, s in items[:len(comps)]]):
                         ok = True
+        if not ok and sim.hist_used:
+            ok = comps == hist_expected(od.text, od.cursor_position)
         if not ok:
             bad("Buffer.complete_state | completions not computed for the original document",
                 "completion list is stale (completer gives %r for the original document)" % (full,))
@@ -549,7 +587,7 @@ def oracle(case):
                     if dangling:
                         v.append({"signature": DANGLING, "msg": "%s raised %r" % (where, sim.last_exc)})
                     elif k in ("next", "prev", "cancel", "tab", "ins", "delb", "del", "cur", "text", "startc",
-                               "vsync", "reset") or (k == "apply"):
+                               "vsync", "reset", "apply", "hist"):
                         v.append({"signature": "Buffer.%s | raises" % k,
                                   "msg": "%s raised %r" % (where, sim.last_exc)})
                 elif st.startswith("taskerr"):
@@ -607,6 +645,10 @@ def enum_configs(tier):
     """(case skeleton, alphabet, depth quick, depth thorough)"""
     off = {"cwt": 0, "hasV": 0, "vwt": 0, "hasS": 0}
     out = []
+    # identity of the CompletionState object: a foreign menu appears while a stream is loading
+    for name, mode in (("one", 3), ("ext2", 3), ("ext2", 2), ("chg3", 1)):
+        out.append(({"cfg": dict(off), "comp": COMPS[name], "text": "a", "cur": 1},
+                    ["ins_s:97", "hist", "prev_1_0", "startc_%d" % mode, "start_0", "rel_c"], 9, 11))
     # completer only, explicit start in each mode
     for name, mode, dq, dt in (("ext2", 0, 6, 8), ("ext2", 3, 6, 8), ("noop1", 0, 6, 8), ("chg3", 1, 6, 8),
                                ("chg3", 2, 6, 8), ("single_chg", 3, 6, 8), ("one", 3, 6, 8),
@@ -626,6 +668,14 @@ def enum_configs(tier):
     out.append(({"cfg": dict(DEFAULT_CFG), "comp": COMPS["ext2"], "text": "a", "cur": 1},
                 ["ins_s:97", "delb_1", "cur_-1", "next_1_0", "cancel", "tab", "start_0", "rel_c", "rel_v",
                  "rel_s"], 5, 7))
+    # a foreign menu (start_history_lines_completion) while the completer loads: identity check
+    out.append(({"cfg": dict(off), "comp": COMPS["ext2"], "text": "ab\na", "cur": 4},
+                ["ins_s:97", "cur_-1", "prev_1_0", "cancel", "hist", "startc_3", "startc_1", "start_0", "rel_c"],
+                6, 8))
+    # task cancellation
+    out.append(({"cfg": dict(DEFAULT_CFG), "comp": COMPS["ext2"], "text": "a", "cur": 1},
+                ["ins_s:97", "next_1_0", "tab", "start_0", "rel_c", "rel_v", "kill_c", "kill_v", "kill_s",
+                 "killp_0"], 5, 7))
     # small max_number_of_completions
     out.append(({"cfg": dict(off, maxN=2), "comp": COMPS["chg3"], "text": "ab", "cur": 2},
                 A_USER + ["startc_3", "startc_1"] + A_SCHED_C, 5, 7))
@@ -645,7 +695,7 @@ def enum_paths(skel, alphabet, depth, max_states=400000):
     return [[parse_op(o) for o in p.split(";")] for p in parts if p]
 
 
-RA = ["a", "b", "x", " "]
+RA = ["a", "b", "x", " ", "a", "b", "\n"]
 
 
 def rand_spec(rng):
@@ -674,7 +724,9 @@ def rand_case(rng, natural):
                 ops.append(rng.choice([["nrel", "c"], ["nrel", "c"], ["nrel", "v"], ["nrel", "s"], ["drain"]]))
             else:
                 ops.append(rng.choice([["start", 0], ["start", 0], ["start", rng.randrange(3)], ["rel", "c"],
-                                       ["rel", "c"], ["rel", "v"], ["rel", "s"], ["drain"], ["nrel", "c"]]))
+                                       ["rel", "c"], ["rel", "c"], ["rel", "v"], ["rel", "v"], ["rel", "s"],
+                                       ["rel", "s"], ["drain"], ["nrel", "c"],
+                                       ["kill", rng.choice("cvs")], ["killp", rng.randrange(2)]]))
         elif r < 0.55:
             ops.append(["ins", "".join(rng.choice(RA) for _ in range(rng.choice([0, 1, 1, 2])))])
         elif r < 0.62:
@@ -689,8 +741,10 @@ def rand_case(rng, natural):
             ops.append(["cancel"])
         elif r < 0.92:
             ops.append(["startc", rng.randrange(4)])
-        elif r < 0.95:
+        elif r < 0.94:
             ops.append(["tab"])
+        elif r < 0.95:
+            ops.append(["hist"])
         elif r < 0.96:
             ops.append(["vsync"])
         elif r < 0.975:
@@ -714,7 +768,7 @@ def cases(tier, rng):
         yield rand_case(rng, natural=(i % 3 == 2))
 
 
-SCHED = ("start", "rel", "drain", "nrel")
+SCHED = ("start", "rel", "drain", "nrel", "kill", "killp")
 
 
 def nontrivial(case):
